@@ -12,7 +12,7 @@ import (
 )
 
 func constantStringVal(c *ssa.Const) string { return constant.StringVal(c.Value) }
-func constantBool(c *ssa.Const) bool       { return constant.BoolVal(c.Value) }
+func constantBool(c *ssa.Const) bool        { return constant.BoolVal(c.Value) }
 
 func (ex *Exec) unop(fr *frame, in *ssa.UnOp, x Value) Value {
 	switch in.Op {
